@@ -425,6 +425,54 @@ Proof.
     vm_compute. repeat split.
 Qed.
 
+(* ====================================================================================== *)
+(* Glue C10 <-> C01 (theories/Glue/GlueNav.v).  The queries above are computed from the forest VALUE
+   (a node is resolved to its context: ancestor chain, sibling list, own sub-tree).  The implementation
+   follows _parent / _children pointers.  The heap model of C01 (Mut/Heap.v) has exactly those pointers,
+   is refined by every mutator (C01_heap_refinement), and abstracts to the forest; on that forest the
+   model's answers ARE the raw pointers of the heap - for every heap any history of operations produces:
+     parent            = the _parent pointer (0 = the system root for a top-level node),
+     children          = the _children list,           siblings incl. self = the parent's _children list,
+     the ancestor chain = the chain of _parent pointers ([anc_heap], fuel = number of allocated objects),
+     depth             = its length + 1,               is_descendant_of(o) = o occurs in that chain,
+     and the node's _tree pointer is set, its payload is the object's. *)
+From NT Require Machine Heap HeapProofs GlueNav.
+
+Theorem C10_queries_are_the_raw_pointers : forall ops h, In h (Heap.htrees (Heap.h_run ops Heap.h_empty_world)) ->
+  exists f, Heap.abs_forest h = Some f /\ forall n c, locate_f n f = Some c ->
+    Heap.hpar h n = Some (match q_parent c with Some p => rid p | None => 0 end) /\
+    Heap.hch h n = map rid (q_children c) /\
+    Heap.hch h (match q_parent c with Some p => rid p | None => 0 end) = map rid (q_siblings c true) /\
+    Heap.anc_heap (Heap.h_fuel h) h n = map rid (c_anc c) /\
+    q_depth c = S (length (Heap.anc_heap (Heap.h_fuel h) h n)) /\
+    (forall o, q_is_descendant_of c o = Heap.memn o (Heap.anc_heap (Heap.h_fuel h) h n)) /\
+    Heap.htr h n = true /\ Heap.hinf h n = rinfo (c_self c).
+Proof. exact GlueNav.queries_are_pointers_reachable. Qed.
+Print Assumptions C10_queries_are_the_raw_pointers.
+
+(* the same for any heap that represents a well-formed machine state *)
+Theorem C10_queries_are_the_raw_pointers_rep : forall h t, WF.WF t -> HeapProofs.Rep h t ->
+  forall n c, locate_f n (Machine.forest_of t) = Some c ->
+    Heap.hpar h n = Some (match q_parent c with Some p => rid p | None => 0 end) /\
+    Heap.hch h n = map rid (q_children c) /\
+    Heap.hch h (match q_parent c with Some p => rid p | None => 0 end) = map rid (q_siblings c true) /\
+    Heap.anc_heap (Heap.h_fuel h) h n = map rid (c_anc c) /\
+    q_depth c = S (length (Heap.anc_heap (Heap.h_fuel h) h n)) /\
+    (forall o, q_is_descendant_of c o = Heap.memn o (Heap.anc_heap (Heap.h_fuel h) h n)) /\
+    Heap.htr h n = true /\ Heap.hinf h n = rinfo (c_self c).
+Proof. exact GlueNav.queries_are_pointers. Qed.
+Print Assumptions C10_queries_are_the_raw_pointers_rep.
+
+(* Glue (theories/Glue/GluePreNav.v): the parent component of a row of the mutation machine's flattening
+   is the parent this model finds for that node *)
+From NT Require SurgeryFacts GluePreNav.
+
+Theorem C10_parent_is_the_rows_parent : forall f, NoDup (ids f) -> ~ In 0 (ids f) -> forall r, In r (SurgeryFacts.rows 0 f) ->
+  exists c, locate_f (SurgeryFacts.r_id r) f = Some c /\ rid (c_self c) = SurgeryFacts.r_id r /\ rinfo (c_self c) = SurgeryFacts.r_info r /\
+            SurgeryFacts.r_par r = match q_parent c with Some p => rid p | None => 0 end.
+Proof. exact GluePreNav.row_parent_is_nav_parent. Qed.
+Print Assumptions C10_parent_is_the_rows_parent.
+
 (* ==== PART NODEMISC: the accessors of Node / Tree that the relationship model does not contain (model
    theories/Forest/MiscNode.v, correspondence Cases/CaseMiscNode.v, harness parts_misc.NODEMISC).  [ent] = an object a
    caller can hold: [ERoot] the invisible system root, [ENode c] a node with its context; [raw_parent] is the `_parent`
